@@ -235,6 +235,7 @@ def run(ctx, chk):
     chk.rule("C05.R5", "XLAT loads AL from DS:[BX+AL]", floor=1)
     chk.rule("C05.R6", "no flag changes except POPF/SAHF", floor=300)
     chk.rule("C05.R7", "no abort site in the data-transfer actions", floor=50)
+    chk.rule("C05.R8", "PUSH/POP with a memory operand load the whole word before they store (operand and stack slot may overlap)", floor=4)
 
     # ---- MOV
     for k, p in enumerate(G.productions("mov")):
@@ -333,6 +334,15 @@ def run(ctx, chk):
                 o = cur[0]
                 regs, mem = machine(P, st)
                 stack_rule(chk, I, regs, mem, nt, o, f"{label} [{o.reg or o.atom}]", label, where, sp_dec, sp_inc)
+                if o.kind == "mem":
+                    from insn import overlap_hazards
+                    hz = overlap_hazards(I)
+                    if hz:
+                        chk.violation("C05.R8", label, "operand-read-after-stack-write" if nt == "push" else "stack-read-after-operand-write",
+                                      f"{label}: the byte at {hz[0][1]} is loaded after the byte at {hz[0][0]} was stored; the memory operand and the stack slot can overlap by one byte "
+                                      f"({'push word [sp-3]' if nt == 'push' else 'pop word [sp+1]'}), and then the byte loaded is the one just written, not the operand's", where)
+                    else:
+                        chk.ok("C05.R8", f"{label} [{o.atom}]", "the whole word is loaded before the first store")
                 report_aborts(chk, "C05.R7", label, [e for e in I.events if "__action" in e.fn], where)
 
     # ---- singleton data transfer
